@@ -41,6 +41,13 @@ static QVariant val(std::istringstream &is)
 int main()
 {
     std::string line;
+    {   // warm-up: another formatter instance in the other mode has already been used in this process
+        // (a formatter must not share its mode with other instances)
+        QMessageLogContext wctx("w.cpp", 1, "void w()", "warm");
+        LogMessage wm(QtInfoMsg, wctx, QStringLiteral("warm-up"));
+        JsonFormatter indented(false), compact(true);
+        indented.format(wm); compact.format(wm);
+    }
     while (std::getline(std::cin, line)) {
         std::istringstream is(line);
         int flag, type, ln, na; std::string msg, fmt, cat, file, fn;
